@@ -6,3 +6,6 @@ open Genq.Ws
 #print axioms C15_pinned_close_frame_first_witness
 #print axioms C15_pinned_close_leaves_open_witness
 #print axioms C15_fixed_close_under_fault
+#print axioms C15_conversation_shape
+#print axioms C15_written_only_grows
+#print axioms C15_valid_conversation_full_refuted
